@@ -19,7 +19,7 @@ Theorems (all for arbitrary dictionaries, inputs, sizes, options):
 * `suggest_prefix`            — prefix mode: every option starts with the input, is indexed;
 * `suggest_fuzzy`             — fuzzy mode: Levenshtein distance ≤ `min max_edits 2`, shares the
                                 first `prefix_length` characters, is indexed
-                                (`boundedLev_eq`: the bounded DP = textbook recurrence, cut off);
+                                (`lev_textbook`: the bounded DP = textbook recurrence, cut off);
 * `scan_is_take`              — the scan loop = first `cap` qualifying (segment, term) pairs;
 * `suggest_df_sum_partial`    — `doc_freq = totalDf`, score = weight · `totalDf`, **provided the
                                 number of qualifying (segment, term) pairs is ≤ the scan cap**;
@@ -291,6 +291,19 @@ theorem take_min_length {α : Type} (l : List α) (p : Nat) : l.take (min p l.le
   · rw [Nat.min_eq_left h]
   · have h' : l.length ≤ p := by omega
     rw [Nat.min_eq_right h', List.take_of_length_le (Nat.le_refl _), List.take_of_length_le h']
+
+/-- the distance in `suggest_fuzzy` is the textbook Levenshtein distance: `lev` (what the row DP
+computes, prefixes of both strings) equals the head recurrence `levH`, whose defining equations
+are `levH_nil`, `levH_cons_nil`, `levH_cons_cons`; the code's bounded DP returns it when it is
+`≤ k` and `None` otherwise -/
+theorem lev_textbook (a b : List κ) (k : Nat) :
+    lev a b = levH a b ∧
+    boundedLev a b k = (if levH a b ≤ k then some (levH a b) else none) ∧
+    levH ([] : List κ) b = b.length ∧ levH a [] = a.length ∧
+    (∀ x y, levH (x :: a) (y :: b) =
+      min (min (levH a (y :: b) + 1) (levH (x :: a) b + 1)) (levH a b + cost x y)) := by
+  refine ⟨lev_eq_levH a b, ?_, levH_nil b, levH_nil_right a, fun x y => levH_cons_cons x y a b⟩
+  rw [boundedLev_eq, lev_eq_levH]
 
 /-- fuzzy mode: every option is an indexed term within Levenshtein distance `min max_edits 2`
 (hence within `max_edits`) of the analyzed prefix that shares its first `prefix_length`
